@@ -3,6 +3,7 @@ import ScenicModel.Props.C13Balance
 import ScenicModel.Props.C13Guards
 import ScenicModel.Props.C13Flow
 import ScenicModel.Props.C13Fuel
+import ScenicModel.Props.C13Frozen
 import ScenicModel.Gen.Interrupts
 
 /-!
@@ -304,5 +305,46 @@ example :
     let env : Env := { cond := fun _ => false, guard := fun g => if g = 1 then 2 else 1 }
     let P : Prog := [{ pre := [0], inv := [1], body := [L.yld 1] }]
     (startChecks Cfg.spec P env 0).2 = some ⟨.inv, 0⟩ ∧ (checkGuards env 0 [0, 1]).2 = false := by decide +kernel
+
+/-! ## multi-step exact resumption (C13Frozen) on the generated configuration -/
+
+/-- for any number of time steps with some interrupt condition of the statement true, the body block -- with the
+    continuation saved when it was pre-empted -- is carried along unchanged, or a handler ended the statement -/
+theorem body_frozen_multi_step (P : Prog) (fuel self : Nat) (inSub : Bool) (kind : TryKind) (body : Blk K)
+    (l : List L) (c : List Frame) (envs : List Env) (hs : List (Blk K)) (as : List Nat) (k' : K)
+    (hen : ∀ env ∈ envs, shapeEnabled env (shape hs) = true)
+    (h : resumeN interruptCfg P fuel self inSub envs (.atTry kind body hs l c) = some (as, k')) :
+    (∃ hs', k' = .atTry kind body hs' l c ∧ shape hs' = shape hs ∧ as.length = envs.length) ∨
+      ∃ env ∈ envs, HandlerEndsStatement interruptCfg P env self inSub kind body (shape hs) :=
+  body_frozen_while_handlers_active interruptCfg gen_selection.1 P fuel self inSub kind body l c envs hs as k' hen h
+
+/-- ... and at the first step with no handler active the body is resumed from exactly that continuation -/
+theorem preempted_body_resumes_after_any_steps (P : Prog) (fuel self : Nat)
+    (inSub : Bool) (kind : TryKind) (cnd : Nat) (code : List L) (kb : K) (l : List L) (c : List Frame)
+    (envs : List Env) (hs : List (Blk K)) (as : List Nat) (k1 : K)
+    (hen : ∀ env ∈ envs, shapeEnabled env (shape hs) = true)
+    (hrun : resumeN interruptCfg P fuel self inSub envs (.atTry kind ⟨cnd, code, some kb⟩ hs l c) = some (as, k1))
+    (hnc : ¬ ∃ env ∈ envs, HandlerEndsStatement interruptCfg P env self inSub kind ⟨cnd, code, some kb⟩ (shape hs)) :
+    ∃ hs', k1 = .atTry kind ⟨cnd, code, some kb⟩ hs' l c ∧ shape hs' = shape hs ∧
+      ∀ (env' : Env) (fuel' a : Nat) (k' : K) (lg : List Ev), pick interruptCfg env' hs' = none →
+        go interruptCfg P env' fuel' self (inSubFor inSub kind ⟨cnd, code, some kb⟩ hs' none) (.resume kb) = .yielded a k' lg →
+        go interruptCfg P env' (fuel' + 1) self inSub (.loopTI kind ⟨cnd, code, some kb⟩ hs' l c)
+          = .yielded a (.atTry kind ⟨cnd, code, some k'⟩ hs' l c) lg :=
+  preempted_body_resumes_exactly interruptCfg gen_selection.1 P fuel self inSub kind cnd code kb l c envs hs as k1 hen hrun hnc
+
+/-- Example (the hypotheses are satisfiable, non-trivially): body `take 1; take 2; take 3` pre-empted after 1, handler
+    `take 10; take 11` suspended after 10.  Three steps with the condition true (the handler finishes and fires again),
+    then false: actions 11 10 11, then the body continues with 2 -- and is then suspended before 3. -/
+theorem example_frozen_body_three_steps :
+    let on : Env := { cond := fun _ => true, guard := fun _ => 1 }
+    let off : Env := { cond := fun _ => false, guard := fun _ => 1 }
+    let k0 : K := .atTry (.user ⟨false, false, false⟩) ⟨0, [L.yld 1, L.yld 2, L.yld 3], some (.atYld [L.yld 2, L.yld 3] [])⟩
+      [⟨0, [L.yld 10, L.yld 11], some (.atYld [L.yld 11] [])⟩] [] []
+    shapeEnabled on (shape [⟨0, [L.yld 10, L.yld 11], none⟩]) = true ∧
+    (resumeN interruptCfg [] 50 0 false [on, on, on] k0).map (fun r => (r.1, match r.2 with
+        | .atTry _ ⟨_, _, some (.atYld [L.yld 2, L.yld 3] [])⟩ _ _ _ => true | _ => false)) = some ([11, 10, 11], true) ∧
+    (resumeN interruptCfg [] 50 0 false [on, on, on, off] k0).map (fun r => (r.1, match r.2 with
+        | .atTry _ ⟨_, _, some (.atYld [L.yld 3] [])⟩ _ _ _ => true | _ => false)) = some ([11, 10, 11, 2], true) := by
+  decide +kernel
 
 end Scenic.C13
